@@ -103,11 +103,13 @@ def work_sweep(item):
 def work(item):
     if item[0] == "sweep":
         return work_sweep(item)
-    tj, style, bits, seed, timeout_ms, do_casadi = item
+    tj, style, bits, seed, timeout_ms, do_casadi = item[:6]
+    hist = item[6] if len(item) > 6 else "fresh"
+    runs.set_default_history(hist)  # every real step / compilation below runs on a network built through this history
     topo = T_.Topo.from_json(tj)
     flags = runs.flags_of(bits)
     rng = random.Random(seed)
-    acc = netcheck.Acc(f"{topo.name}:{style}:{bits:06b}")
+    acc = netcheck.Acc(f"{topo.name}:{style}:{bits:06b}" + ("" if hist == "fresh" else f":{hist}"))
     D = ref_metanet.admissible_domain(topo)
     prover = discharge.Prover(timeout_ms=timeout_ms, seed=seed)
     ex = acc.d["extra"]
@@ -338,6 +340,12 @@ def main():
         for j, bits in enumerate(FLAGSETS_FULL if args.thorough else FLAGSETS_QUICK):
             for style in (("array", "scalar") if bits == 0 or args.thorough else (("array", "scalar")[(k + j) % 2],)):
                 items.append((t.to_json(), style, bits, args.seed + k, timeout, style == "array" or bits == 0))
+    # accepted networks that were not built in one go: lookups read before the remaining links arrive in one bulk call, elements
+    # replaced after a first step
+    hs = ["reads-then-bulk-links", "decoy-links-replaced", "reads-then-bulk-links", "decoy-attachments-replaced", "reads-interleaved"]
+    for k, t in enumerate(families.curated()):
+        for h in (sorted(set(hs)) if args.thorough else [hs[k % len(hs)]]):
+            items.append((t.to_json(), "array", 0, args.seed + k, timeout, True, h))
     if args.thorough:
         for k, t in enumerate(families.E(4, 4) + families.E(3, 4, maxN=5)[::3] + families.random_topos(args.seed, 40)):
             items.append((t.to_json(), ("array", "scalar")[k % 2], FLAGSETS_FULL[k % len(FLAGSETS_FULL)], args.seed + k, timeout, True))
